@@ -1,4 +1,4 @@
-//@ props: C02,C19
+//@ props: C02,C17,C19
 //@ target: src/scheduler.rs
 // The spawned wrapper — src/scheduler.rs Remote::poll.  The mechanism the properties rest on:
 // "task handles clear keep_running under the same lock the running task holds" — a task body runs
@@ -28,7 +28,7 @@ impl Future for LockProbe {
 }
 fn no_unwind<F: FnOnce() -> R + std::panic::UnwindSafe, R>(f: F) -> std::thread::Result<R> { Ok(f()) }
 
-// [C02,C19] one poll of the wrapper on a live handle: the body is polled WHILE the handle's lock is
+// [C02,C17,C19] one poll of the wrapper on a live handle: the body is polled WHILE the handle's lock is
 // held, the lock is free again afterwards, and a body that is not ready leaves the handle open
 //@ bounded: the body answers Pending (the store of a Ready value drags the drop glue of Box<dyn Any + Send> into CBMC and does not finish in 240 s)
 #[kani::proof]
